@@ -26,7 +26,7 @@ def gen(cs, kinds_pool=("sec", "fi", "cp", "cp", "fi", "hedge", "cphedge"), nd=(
     ndates = rng.randint(*nd)
     prices = 100 * np.exp(np.cumsum(rs.randn(ndates, n) * 0.005, axis=0))
     for j, k in enumerate(kinds):
-        if k in ("hedge", "cphedge") and rng.random() < 0.5:
+        if (k in ("hedge", "cphedge") and rng.random() < 0.5) or (k in ("cp", "fi") and rng.random() < 0.2):
             # swap-like mark-to-market: starts at par (exactly 0), wanders through negative values, may touch 0 again
             z = rng.randint(1, 3)
             path = np.concatenate([np.zeros(z), np.cumsum(rs.randn(ndates - z) * 0.5).round(3)])
